@@ -63,8 +63,20 @@ Alpha == <<P!Pu("#"), P!Pu("["), P!Pu("]"), P!Pu("("), P!Pu(")"), P!Pu(","), P!P
            P!In(NumInt(0)), P!In(NumInt(1)), P!In(NumInt(3)), P!In(NumInt(4)), P!In(NumInt(8)), P!In(NumInt(16)), P!In(NumInt(0 - 8)),
            P!St("thiscall"), P!St("pascal")>>
 
+(* the bracket that closes the attribute opened by the `#` at i (0 when i opens none) *)
+RECURSIVE CloseFrom(_, _, _)
+CloseFrom(s, j, depth) ==
+  IF j > Len(s) THEN 0
+  ELSE IF s[j] = P!Pu("[") THEN CloseFrom(s, j + 1, depth + 1)
+  ELSE IF s[j] = P!Pu("]") THEN (IF depth = 1 THEN j ELSE CloseFrom(s, j + 1, depth - 1))
+  ELSE CloseFrom(s, j + 1, depth)
+AttrEnd(s, i) == IF s[i] = P!Pu("#") /\ i < Len(s) /\ s[i + 1] = P!Pu("[") THEN CloseFrom(s, i + 1, 0) ELSE 0
+(* an earlier statement of the same attributes with other numbers: the later (original) statement counts *)
+Shifted(seg) == [k \in DOMAIN seg |-> IF seg[k].k = "int" THEN P!In(NumInt(seg[k].n.d + 8)) ELSE seg[k]]
+
 Mutations(s) ==
   {[op |-> "none", i |-> 0, a |-> 0]}
+  \cup {[op |-> "restate", i |-> i, a |-> 0] : i \in {k \in DOMAIN s : AttrEnd(s, k) # 0}}
   \cup {[op |-> "del", i |-> i, a |-> 0] : i \in DOMAIN s}
   \cup {[op |-> "swap", i |-> i, a |-> 0] : i \in 1..(Len(s) - 1)}
   \cup {[op |-> "dup", i |-> i, a |-> 0] : i \in DOMAIN s}
@@ -76,6 +88,7 @@ Apply(s, mu) ==
     [] mu.op = "del"  -> SubSeq(s, 1, mu.i - 1) \o SubSeq(s, mu.i + 1, Len(s))
     [] mu.op = "swap" -> [s EXCEPT ![mu.i] = s[mu.i + 1], ![mu.i + 1] = s[mu.i]]
     [] mu.op = "dup"  -> SubSeq(s, 1, mu.i) \o SubSeq(s, mu.i, Len(s))
+    [] mu.op = "restate" -> SubSeq(s, 1, mu.i - 1) \o Shifted(SubSeq(s, mu.i, AttrEnd(s, mu.i))) \o SubSeq(s, mu.i, Len(s))
     [] mu.op = "rep"  -> [s EXCEPT ![mu.i] = Alpha[mu.a]]
     [] OTHER          -> SubSeq(s, 1, mu.i - 1) \o <<Alpha[mu.a]>> \o SubSeq(s, mu.i, Len(s))
 
